@@ -25,10 +25,12 @@ Each change was written by a separate agent that saw only the text of one proper
 /repo HEAD and fails with the patch, the baseline tests reaching the changed code still pass (run by the authoring agent,
 logs in its notes), and then ran the property's check against the patched worktree (`XPLIQUE_REPO=...`).  Where a check
 missed a change, the check was strengthened (never the change weakened) and the change re-run; the `meta.json` records it.
-Three rounds were run: round 1 asked for any realistic property-breaking change (off-by-one, axes, tile / repeat, remainder
+Four rounds were run: round 1 asked for any realistic property-breaking change (off-by-one, axes, tile / repeat, remainder
 batches, signs ...), round 2 for state / history, pairs of non-default arguments, float32-cancelling rewrites and shared
 helpers, round 3 for API glue and coercions, edges of valid ranges, ordering and ties, one of several code paths that must
-agree, and edits far from the obvious file.  A few round-2 / round-3 submissions repeated an earlier idea and were tried
+agree, and edits far from the obvious file, round 4 for optional / None-valued arguments, defects visible only from the
+third batch / input / class on, documented constants and normalisations, dtype and container leaks, and error handling
+that hides a failing case.  A few round-2 / round-3 submissions repeated an earlier idea and were tried
 (all caught) but not kept twice.  `tools/rerun_seeded.sh` re-runs every kept change against the current checks.
 """ + f"\n{len(rows)} changes kept, all caught by the current checks ({sum(1 for r in rows if 'missed at first' in r)} were missed at first).\n\n" + table + "\n"
 (root / 'DESIGN.md').write_text(new)
